@@ -208,6 +208,35 @@ func runC08(ctx *h.Ctx) int {
 				}
 			}
 		}
+		if k.R.IntN(6) == 0 {
+			// constants spelled like the script labels that plain entries and plain rows name: a label is a name,
+			// not a use of a constant (the row's var and value are)
+			var labels []string
+			for _, m := range maps {
+				for _, e := range m.Entries {
+					if e.Kind == 0 {
+						labels = append(labels, e.Label)
+					}
+					for _, row := range e.Rows {
+						if row.Body == nil {
+							labels = append(labels, row.Label)
+						}
+					}
+				}
+			}
+			seen := map[string]bool{}
+			var cs []spec.Item
+			for _, l := range labels {
+				if !seen[l] && l != "" && k.R.IntN(2) == 0 {
+					seen[l] = true
+					cs = append(cs, &spec.Const{ID: prog.NewID(), Name: l, Value: []string{[]string{"2", "VAR_TEMP_9", "OtherLabel"}[k.R.IntN(3)]}})
+				}
+			}
+			if len(cs) > 0 {
+				prog.Items = append(cs, prog.Items...)
+				k.Count("files_with_constants_spelled_like_entry_labels", 1)
+			}
+		}
 		rp, rerr := spec.Resolve(prog, prog.Switches)
 		pr := layoutOf(k, prog, 0.2)
 		k.SetSource(pr.Src)
